@@ -312,7 +312,7 @@ func C10(tier string) int {
 	if res.Thorough() {
 		bound = 2
 	}
-	corpus := append(CorpusWithHooks(), HistoryCorpus()...)
+	corpus := append(append(CorpusWithHooks(), HistoryCorpus()...), TypeCorpus()...)
 	parallel(len(corpus), func(i int) {
 		sc := corpus[i]
 		var viols []c10viol
